@@ -15,6 +15,8 @@ use crate::props::start_e2::{progress_fails, scenarios, Arr, Oracle, Sym};
 use crate::rt::{log, EnvParams, Ev, Status};
 
 const PROBE: u32 = 17;
+/// probe in front of the connection: what each producer replica hands to its `End`
+const PROBE_IN: u32 = 18;
 
 #[derive(Clone, Copy, Debug, PartialEq, Eq)]
 enum Conn {
@@ -28,9 +30,16 @@ enum Conn {
 /// tracker runs over it, and the probe right behind the block's `Start` must show each rise of
 /// the minimum.
 fn job_scenario(iters: Vec<Vec<Vec<Sym>>>, conn: Conn, layout: Layout, bound: usize) -> Scenario {
+    job_scenario_in(iters, conn, layout, bound, 0)
+}
+
+/// `rounds` > 0: the connection and the probes sit inside the body of `replay(rounds, ..)`, which
+/// feeds the same timestamped input (watermarks included) to every round - event time starts
+/// over in each of them, and the loop protocol keeps the rounds of different replicas apart.
+fn job_scenario_in(iters: Vec<Vec<Vec<Sym>>>, conn: Conn, layout: Layout, bound: usize, rounds: usize) -> Scenario {
     let n = layout.total_cores() as usize;
-    let name = format!("C17/job/{:?}/{}/{:?}", conn, layout.name(), iters).replace(' ', "");
-    let descr = format!("timestamped source with per-iteration, per-replica sequences {:?} (T = element, W = watermark) -> {:?} -> probe, layout {}", iters, conn, layout.name());
+    let name = format!("C17/job{}/{:?}/{}/{:?}", if rounds > 0 { format!("-replay{rounds}") } else { String::new() }, conn, layout.name(), iters).replace(' ', "");
+    let descr = format!("timestamped source with per-iteration, per-replica sequences {:?} (T = element, W = watermark) -> {}probe -> {:?} -> probe, layout {}", iters, if rounds > 0 { format!("replay with {rounds} rounds of the body: ") } else { String::new() }, conn, layout.name());
     let it2 = iters.clone();
     let l2 = layout.clone();
     let body: crate::rt::Body = Arc::new(move || {
@@ -53,10 +62,25 @@ fn job_scenario(iters: Vec<Vec<Vec<Sym>>>, conn: Conn, layout: Layout, bound: us
                     }
                 }
                 let s = env.stream(ScriptSource::new(scripts, Replication::Unlimited)).batch_mode(BatchMode::fixed(1));
-                match conn {
-                    Conn::Shuffle => probe(s.shuffle(), PROBE).for_each(|_| {}),
-                    Conn::GroupBy => probe(s.group_by(|x: &i64| x % 2).0, PROBE).for_each(|_| {}),
-                    Conn::Broadcast => probe(s.broadcast(), PROBE).for_each(|_| {}),
+                if rounds == 0 {
+                    let s = probe(s, PROBE_IN);
+                    match conn {
+                        Conn::Shuffle => probe(s.shuffle(), PROBE).for_each(|_| {}),
+                        Conn::GroupBy => probe(s.group_by(|x: &i64| x % 2).0, PROBE).for_each(|_| {}),
+                        Conn::Broadcast => probe(s.broadcast(), PROBE).for_each(|_| {}),
+                    }
+                } else {
+                    let body = move |s: renoir::Stream<_>, _st: renoir::operator::iteration::IterationStateHandle<i64>| {
+                        let s = probe(s, PROBE_IN);
+                        match conn {
+                            // (the end of a loop body takes no timestamped elements)
+                            Conn::Shuffle => crate::kit::erase(probe(s.shuffle(), PROBE).drop_timestamps()),
+                            Conn::GroupBy => crate::kit::erase(probe(s.group_by(|x: &i64| x % 2).0, PROBE).map(|kv: (i64, i64)| kv.1).drop_timestamps()),
+                            Conn::Broadcast => crate::kit::erase(probe(s.broadcast(), PROBE).drop_timestamps()),
+                        }
+                    };
+                    s.replay(rounds, 0i64, body, |d: &mut i64, _x: i64| *d += 1, |st: &mut i64, d: i64| *st += d, |_st: &mut i64| true)
+                        .for_each(|_| {});
                 }
                 env.execute_blocking();
             }),
@@ -86,6 +110,48 @@ fn job_scenario(iters: Vec<Vec<Vec<Sym>>>, conn: Conn, layout: Layout, bound: us
         }
         if consumers.len() != n {
             return Err(Fail::new("c17-job-replicas", format!("{d2}: {} downstream replicas were seen, {n} expected", consumers.len())));
+        }
+        // every watermark a producer replica hands to its End reaches every downstream replica,
+        // in order, in every iteration (End broadcasts control elements whatever the connection
+        // does with the data)
+        let mut handed: BTreeMap<(u64, u64, u64), Vec<i64>> = BTreeMap::new();
+        let mut carried: BTreeMap<((u64, u64, u64), (u64, u64, u64)), Vec<i64>> = BTreeMap::new();
+        for e in &r.log {
+            match e {
+                Ev::Probe(PROBE_IN, pc, k, ts, _) => {
+                    let v = handed.entry(*pc).or_default();
+                    if *k == K_WM {
+                        v.push(ts.unwrap());
+                    } else if *k == K_FAR {
+                        v.push(i64::MIN);
+                    }
+                }
+                Ev::Repo(Event::Received { at, from, elems, .. }) if consumers.contains(at) => {
+                    let v = carried.entry((*from, *at)).or_default();
+                    for el in elems {
+                        match el.kind {
+                            2 => v.push(el.ts.unwrap()),
+                            5 => v.push(i64::MIN),
+                            _ => {}
+                        }
+                    }
+                }
+                _ => {}
+            }
+        }
+        for (from, seq) in &handed {
+            for c in &consumers {
+                let got = carried.get(&(*from, *c)).cloned().unwrap_or_default();
+                if &got != seq {
+                    return Err(Fail::new(
+                        "c17-job-watermarks-not-everywhere",
+                        format!("{d2}: producer replica {:?} handed the watermarks / ends of iteration {:?} to its End (i64::MIN = end of iteration), downstream replica {:?} received {:?} from it", from, seq, c, got),
+                    ));
+                }
+            }
+        }
+        if handed.len() != n {
+            return Err(Fail::new("c17-job-replicas", format!("{d2}: {} producer replicas were seen, {n} expected", handed.len())));
         }
         let mut wm_seen = 0usize;
         for c in &consumers {
@@ -232,6 +298,15 @@ fn build(tier: Tier) -> Vec<Scenario> {
         for set in &seq_sets {
             for conn in [Conn::Shuffle, Conn::GroupBy, Conn::Broadcast] {
                 out.push(job_scenario(set.clone(), conn, layout.clone(), bound));
+            }
+        }
+    }
+    // the same connection inside a loop body: watermarks cross the boundary in every round
+    for (layout, bound) in [(Layout::Local(2), if tier == Tier::Quick { 0 } else { 1 }), (Layout::Remote(vec![1, 1]), 0)] {
+        for set in &seq_sets[..if tier == Tier::Quick { 2 } else { 4 }] {
+            for conn in [Conn::Shuffle, Conn::GroupBy, Conn::Broadcast] {
+                let set2: Vec<Vec<Vec<Sym>>> = set.iter().map(|it| it[..layout.total_cores() as usize].to_vec()).collect();
+                out.push(job_scenario_in(set2, conn, layout.clone(), bound, if tier == Tier::Quick { 2 } else { 3 }));
             }
         }
     }
